@@ -253,7 +253,7 @@ def seqLoop (cfg : Cfg) : Nat → Char → It → SeqSt → Option (It × SeqSt)
             | .stop => none
           else if c = '/' then
             if cfg.pathname then none else some (.chr c false, it)
-          else if c ∈ setOperators then some (.chr c true, it)
+          else if c ∈ setOperators || c = '#' then some (.chr c true, it)
           else some (.chr c false, it)
         match valueE with
         | none => none
